@@ -325,6 +325,26 @@ def ONE():
 
 
 # ------------------------------------------------------------------ traversal / substitution
+def cancel_monomial(r):
+    """r with a single-monomial denominator divided out when every numerator term contains it (rows*cols / cols -> rows);
+    r itself otherwise"""
+    if r.d.is_const() or len(r.d.t) != 1:
+        return r
+    (dm, dc), = r.d.t.items()
+    need = dict(dm)
+    out = {}
+    for mm, c in r.n.t.items():
+        have = dict(mm)
+        for a, pw in need.items():
+            if have.get(a, 0) < pw:
+                return r
+            have[a] -= pw
+        key = \
+            tuple((a, have[a]) for a, pw in mm if have[a] > 0)
+        out[key] = out.get(key, 0) + c / dc
+    return Rat(Poly({k: v for k, v in out.items() if v != 0}))
+
+
 def walk_atoms(x, seen=None):
     """All atoms occurring in x (Rat / App / nested tuples), recursively."""
     if seen is None:
